@@ -9,6 +9,8 @@ canonical, condition order irrelevant, caller's graph untouched.
 
 from __future__ import annotations
 
+from functools import lru_cache
+
 import itertools as itt
 import os
 
@@ -20,6 +22,7 @@ TITLE = "d-separation verdicts equal true m-separation in the mixed graph"
 HASH_SEEDS = {"quick": [0, 1], "thorough": [0, 1, 2, 3]}
 
 
+@lru_cache(maxsize=None)
 def _universe(tier):
     uni = [g for n in (2, 3, 4) for g in enum_L(n)]
     if tier == "thorough":
